@@ -11,10 +11,11 @@ every declaration minifier).
 * `walk` — the loop with its `semicolonQueued` state: end events write `}` and clear the queue, a parse error
   writes a queued `;`, then its tokens (a trailing `;` is queued instead of written), everything else writes a
   queued `;` first; at-rule statements, declarations and custom properties queue one.
-* `selToks` — `minifySelectors`: identifiers outside attribute selectors are lower-cased unless they follow a `.`;
-  inside `[…]` a string whose content `css.IsIdent` accepts is written without quotes, a one-letter identifier
-  `i`/`I` is preceded by a space.
-* `importURL` — the `@import url(x)` → `@import "x"` rewrite, index-faithful (single-character URLs included).
+* `selToks` — `minifySelectors` (as of 71d92ee): identifiers outside attribute selectors are lower-cased unless they
+  follow a `.`, precede a `|` (namespace prefix) or are arguments of a functional pseudo-class with case-sensitive
+  arguments (`level`/`keepLevel`); inside `[…]` a string whose content `css.IsIdent` accepts and that has no backslash
+  is written without quotes, a one-letter identifier `i`/`I`/`s`/`S` is preceded by a space.
+* `importURL` — the `@import url(x)` → `@import "x"` rewrite (as of addcaae).
 * `bangComment`, `customValue`, `collapseWs`, `trimWs` — comments and custom properties
   (`parse.ReplaceMultipleWhitespace`, `parse.TrimWhitespace` of the dependency, by behaviour).
 -/
@@ -95,26 +96,59 @@ def isIdent (b : List Char) : Bool :=
 
 def wsTok : Tok := .mk .whitespace [' '] []
 
-/-- the tokens `minifySelectors` writes for the selector tokens `ts` (`inAttr`, `isClass` = its two flags) -/
-def selGo (inAttr isClass : Bool) : List Tok → List Tok
+/-- `caseInsensitiveArgs`: the functional pseudo-classes / pseudo-elements whose arguments are selectors, An+B
+formulas or case-insensitive keywords -/
+def caseInsensitiveArgs : List (List Char) :=
+  ["not", "is", "where", "matches", "has", "any", "-webkit-any", "-moz-any", "host", "host-context", "slotted",
+   "cue", "cue-region", "current", "nth-child", "nth-last-child", "nth-of-type", "nth-last-of-type", "nth-col",
+   "nth-last-col", "lang", "dir"].map String.toList
+
+def isBar (t : Tok) : Bool := t.tt == .delim && t.data.head? == some '|'
+
+/-- the one-letter flags in front of which a space is written: `c|0x20 == 'i'` or `'s'` -/
+def isFlagLetter (c : Char) : Bool := c == 'i' || c == 'I' || c == 's' || c == 'S'
+
+structure SelSt where
+  inAttr : Bool
+  isClass : Bool
+  level : Nat
+  keepLevel : Nat
+  /-- the previous token was a colon -/
+  prevColon : Bool
+  deriving Repr, DecidableEq
+
+def SelSt.init : SelSt := ⟨false, false, 0, 0, false⟩
+
+/-- the tokens `minifySelectors` writes for the selector tokens `ts` -/
+def selGo (st : SelSt) : List Tok → List Tok
   | [] => []
   | t :: r =>
-    if !inAttr then
+    let pc := t.tt == .colon
+    if !st.inAttr then
       if t.tt == .ident then
-        .mk .ident (if isClass then t.data else lower t.data) [] :: selGo false false r
-      else if t.tt == .delim && t.data.head? == some '.' then t :: selGo false true r
-      else if t.tt == .leftBracket then t :: selGo true isClass r
-      else t :: selGo false isClass r
+        let isPrefix := match r with | n :: _ => isBar n | [] => false
+        .mk .ident (if !st.isClass && !isPrefix && st.keepLevel == 0 then lower t.data else t.data) [] ::
+          selGo { st with isClass := false, prevColon := pc } r
+      else if t.tt == .delim && t.data.head? == some '.' then t :: selGo { st with isClass := true, prevColon := pc } r
+      else if t.tt == .leftBracket then t :: selGo { st with inAttr := true, prevColon := pc } r
+      else if t.tt == .function then
+        let keep := st.keepLevel == 0 && st.prevColon && !caseInsensitiveArgs.contains (lower t.data.dropLast)
+        t :: selGo { st with level := st.level + 1, keepLevel := if keep then st.level + 1 else st.keepLevel, prevColon := pc } r
+      else if t.tt == .leftParen then t :: selGo { st with level := st.level + 1, prevColon := pc } r
+      else if t.tt == .rightParen then
+        t :: selGo { st with keepLevel := if st.level == st.keepLevel then 0 else st.keepLevel,
+                             level := st.level - 1, prevColon := pc } r
+      else t :: selGo { st with prevColon := pc } r
     else
-      if t.tt == .string && 2 < t.data.length && isIdent ((t.data.drop 1).dropLast) then
-        .mk .ident ((t.data.drop 1).dropLast) [] :: selGo true isClass r
-      else if t.tt == .string && 2 < t.data.length then t :: selGo true isClass r
-      else if t.tt == .rightBracket then t :: selGo false isClass r
-      else if t.tt == .ident && t.data.length == 1 && (t.data.head? == some 'i' || t.data.head? == some 'I') then
-        wsTok :: t :: selGo true isClass r
-      else t :: selGo true isClass r
+      if t.tt == .string && 2 < t.data.length && isIdent ((t.data.drop 1).dropLast) && !((t.data.drop 1).dropLast).contains '\\' then
+        .mk .ident ((t.data.drop 1).dropLast) [] :: selGo { st with prevColon := pc } r
+      else if t.tt == .string && 2 < t.data.length then t :: selGo { st with prevColon := pc } r
+      else if t.tt == .rightBracket then t :: selGo { st with inAttr := false, prevColon := pc } r
+      else if t.tt == .ident && t.data.length == 1 && t.data.any isFlagLetter then
+        wsTok :: t :: selGo { st with prevColon := pc } r
+      else t :: selGo { st with prevColon := pc } r
 
-def selToks (ts : List Tok) : List Tok := selGo false false ts
+def selToks (ts : List Tok) : List Tok := selGo SelSt.init ts
 
 def lexemes (ts : List Tok) : List Char := ts.flatMap (·.data)
 
@@ -123,20 +157,16 @@ def selBytes (ts : List Tok) : List Char := lexemes (selToks ts)
 
 /-! ## at-rule preludes -/
 
-/-- the rewritten lexeme of the URL token of `@import url(…)` (`4 < len`, ends with `)`) -/
+/-- the rewritten lexeme of the URL token of `@import url(…)` (`4 < len`, ends with `)`): the content between the
+parentheses without surrounding white space, as it is when it is a quoted string, else in double quotes -/
 def importURL (url : List Char) : List Char :=
-  let c4 := url.getD 4 ' '
-  if c4 != '"' && c4 != '\'' then
-    let inner := (url.drop 4).dropLast
-    -- `a` stops at the first byte that is not white space (at the latest at the closing parenthesis),
-    -- `b` walks back from the last byte of the content but not below `a`
-    let lead := (inner.takeWhile isWs).length
-    let content := inner.drop lead
-    let trail := (content.reverse.takeWhile isWs).length
-    let core := content.take (content.length - trail)
-    -- a == b (one byte of content left) gives `""` like the empty URL
-    if core.length ≤ 1 then ['"', '"'] else '"' :: core ++ ['"']
-  else (url.drop 4).dropLast
+  let inner := (url.drop 4).dropLast
+  let content := inner.dropWhile isWs
+  let core := (content.reverse.dropWhile isWs).reverse
+  match core with
+  | q :: _ :: _ =>
+    if (q == '"' || q == '\'') && core.getLast? == some q then core else '"' :: core ++ ['"']
+  | _ => '"' :: core ++ ['"']
 
 /-- prelude tokens of an at-rule statement as written (`data` = lower-cased at-keyword) -/
 def atPrelude (data : List Char) (vals : List Tok) : List Tok :=
